@@ -75,10 +75,15 @@ def _contents(rng, fid, shape, dch):
 def gen_world(rng, i, tier):
     dl = rng.pick(DELIMS)
     cm = rng.pick(["#", ";", "#", ";", "#;", ";#"])
+    if dl[1] == ":" and rng.chance(0.3):
+        cm = rng.pick(["=", "=#"])          # any character that is no delimiter of THIS call can start a comment
+    if dl[1] in ("=", "= ") and rng.chance(0.15):
+        cm = ":"
     shape = ["nogroup", "sections", "both"][i % 3]
     w = {"kind": "tool", "delim": list(dl), "comment": cm, "shape": shape, "cfg": gen.io_cfg(rng, faults=False)}
     ml = dl[1] in ("=", ":") and rng.chance(0.5)      # continuation lines exist only for non-blank delimiter sets
     w["multiline"] = ml
+    w["comment_first"] = rng.chance(0.5)        # order of the two options on the command line
     base = rng.pick(["app", "my.app", "x"])
     w["base"] = base
     # the root the tool is pointed at may have any legal directory name
@@ -152,6 +157,8 @@ def build_plans(world):
     base = world["base"]
     target = world.get("single_path", "$ROOT/some/dir/%s.conf" % base) if world["single"] else "%s.conf" % base
     common = ["--delimiters=" + arg_d, "--comment=" + cm]
+    if world.get("comment_first"):
+        common.reverse()
     rs = world.get("rootsub", "")
     env = {"ECONFTOOL_ROOT": "$ROOT" + rs, "ASAN_OPTIONS": "exitcode=77:detect_leaks=0:replace_str=0:intercept_strlen=0:intercept_strchr=0:intercept_strndup=0", "UBSAN_OPTIONS": "print_stacktrace=1:halt_on_error=1:exitcode=77", "HOME": "$ROOT/home"}
     ops = []
